@@ -45,24 +45,36 @@ theorem C02_walk_events_bound (s : Schema) (d : QueryDoc) (evs : List Event) (h 
   rw [Nat.mul_add, Nat.mul_one, Nat.mul_comm (docEvents d)]
   omega
 
-/-
-  Full statement (NOT provable for the code as it is — see the two counterexamples below):
+/-- `validate` returned an error list (no panic, fuel not exhausted) -/
+def returnsNormally : VResult → Bool
+  | .ok _ => true
+  | _ => false
 
-    theorem C02_validate_no_panic (s : Schema) (d : QueryDoc) (hs : Closed s) :
-        ∀ m, validate defaultRules s d ≠ .panic m
+/-
+  Full statement, for the modelled rules (all default rules except OverlappingFieldsCanBeMerged,
+  plus the four `…WithoutSuggestions` twins):
+
+    theorem C02_validate_no_panic (rs ⊆ modelledRules) (s : Schema) (d : QueryDoc) :
+        ∃ errs, validate rs s d = .ok errs
+
+  It holds of every document whose operations have a kind the parser can produce
+  (`C02_validate_no_panic_parsed`); without that hypothesis KnownRootType's explicit `panic` on an
+  unknown operation kind is reachable from a hand-built AST, and only that rule's
+  (`C02_validate_no_panic_partial` covers the other 29 rules on EVERY schema and document).
+  No hypothesis on the schema is needed.
 -/
 
-/-- Partial version: every rule list drawn from the 27 modelled rules other than
-    ValuesOfCorrectType, its `…WithoutSuggestions` twin and KnownRootType (`panicFreeRules'`)
+/-- Every rule list drawn from the 29 modelled rules other than KnownRootType (`panicFreeRules'`)
     returns an error list on every schema and document — no panic and no fuel exhaustion; in
     particular the bounded searches inside MaxIntrospectionDepth (exponential, but terminating:
     the chain of fragments being visited has pairwise distinct names), SingleFieldSubscriptions
     and NoFragmentCycles never run out of fuel.
-    Missing for the full statement: ValuesOfCorrectType (its former crash witnesses R2a/R2b return
-    normally since the repair, theorems below; its remaining panic site is `Definition.Fields[0]` of a
-    `@oneOf` input object without fields, which a loaded schema cannot contain);
-    KnownRootType panics exactly on an operation kind other than query/mutation/subscription,
-    which the parser never produces (see `C02_validate_no_panic_parsed_partial`). -/
+    ValuesOfCorrectType and its `…WithoutSuggestions` twin are covered since the repairs of
+    R2a/R2b (nil `VariableDefinition` in the `@oneOf` branch), of `Definition.Fields[0]` (the
+    message names `Children[0].Name`) and of R15 (`Value.Value` converts every number literal): the
+    rule body has no panic site left except the `default` of a switch over all ten value kinds.
+    Missing for the full statement: KnownRootType panics exactly on an operation kind other than
+    query/mutation/subscription, which the parser never produces (`C02_validate_no_panic_parsed`). -/
 theorem C02_validate_no_panic_partial (rs : List Rule) (s : Schema) (d : QueryDoc)
     (h : ∀ r ∈ rs, r ∈ panicFreeRules') : ∃ errs, validate rs s d = .ok errs :=
   validateV_neverPanics rs s.view d fun r hr => panicFreeRules'_neverPanic r (h r hr)
@@ -77,13 +89,13 @@ theorem C02_panic_free_rule_names :
         "UniqueInputFieldNames", "UniqueOperationNames", "UniqueVariableNames", "VariablesAreInputTypes",
         "VariablesInAllowedPosition", "FieldsOnCorrectTypeWithoutSuggestions",
         "KnownArgumentNamesWithoutSuggestions", "KnownTypeNamesWithoutSuggestions",
+        "ValuesOfCorrectType", "ValuesOfCorrectTypeWithoutSuggestions",
         "MaxIntrospectionDepth", "SingleFieldSubscriptions", "NoFragmentCycles" ].map str := by
   decide
 
 /-- … and with KnownRootType as well, for documents whose operations have a kind the parser can
     produce (`query`, `mutation`, `subscription`; the explicit `panic` of known_root_type.go is
-    unreachable from parsed documents).  So of the 30 modelled rules only ValuesOfCorrectType and
-    its twin can make `Validate` panic. -/
+    unreachable from parsed documents). -/
 theorem C02_validate_no_panic_parsed_partial (rs : List Rule) (s : Schema) (d : QueryDoc)
     (hd : ∀ op ∈ d.ops, op.op ∈ parserOpKinds)
     (h : ∀ r ∈ rs, r ∈ panicFreeRules' ∨ r = knownRootType) : ∃ errs, validate rs s d = .ok errs := by
@@ -101,10 +113,69 @@ theorem C02_validate_no_panic_parsed_partial (rs : List Rule) (s : Schema) (d : 
   obtain ⟨errs, he⟩ := runAll_neverPanicsOn (s := s.view) (d := d) hev hr
   exact ⟨errs, by simp only [validate, validateV, hw, he]⟩
 
-/-- `validate` returned an error list (no panic, fuel not exhausted) -/
-def returnsNormally : VResult → Bool
-  | .ok _ => true
-  | _ => false
+/-- every modelled rule is KnownRootType or one of the 29 rules that never panic -/
+theorem C02_modelled_rules_covered : ∀ r ∈ modelledRules, r ∈ panicFreeRules' ∨ r = knownRootType := by
+  intro r hr
+  simp only [modelledRules, List.mem_cons, List.mem_nil_iff, or_false] at hr
+  -- (membership by position in `panicFreeRules'`: no equality test between rules is needed)
+  rcases hr with h | h | h | h | h | h | h | h | h | h | h | h | h | h | h | h | h | h | h | h | h | h | h | h | h | h | h | h | h | h <;> subst h
+  · exact Or.inl (List.mem_of_getElem? (i := 0) rfl)
+  · exact Or.inl (List.mem_of_getElem? (i := 1) rfl)
+  · exact Or.inl (List.mem_of_getElem? (i := 2) rfl)
+  · exact Or.inl (List.mem_of_getElem? (i := 3) rfl)
+  · exact Or.inl (List.mem_of_getElem? (i := 4) rfl)
+  · exact Or.inr rfl
+  · exact Or.inl (List.mem_of_getElem? (i := 5) rfl)
+  · exact Or.inl (List.mem_of_getElem? (i := 6) rfl)
+  · exact Or.inl (List.mem_of_getElem? (i := 26) rfl)
+  · exact Or.inl (List.mem_of_getElem? (i := 28) rfl)
+  · exact Or.inl (List.mem_of_getElem? (i := 7) rfl)
+  · exact Or.inl (List.mem_of_getElem? (i := 8) rfl)
+  · exact Or.inl (List.mem_of_getElem? (i := 9) rfl)
+  · exact Or.inl (List.mem_of_getElem? (i := 10) rfl)
+  · exact Or.inl (List.mem_of_getElem? (i := 11) rfl)
+  · exact Or.inl (List.mem_of_getElem? (i := 12) rfl)
+  · exact Or.inl (List.mem_of_getElem? (i := 27) rfl)
+  · exact Or.inl (List.mem_of_getElem? (i := 13) rfl)
+  · exact Or.inl (List.mem_of_getElem? (i := 14) rfl)
+  · exact Or.inl (List.mem_of_getElem? (i := 15) rfl)
+  · exact Or.inl (List.mem_of_getElem? (i := 16) rfl)
+  · exact Or.inl (List.mem_of_getElem? (i := 17) rfl)
+  · exact Or.inl (List.mem_of_getElem? (i := 18) rfl)
+  · exact Or.inl (List.mem_of_getElem? (i := 24) rfl)
+  · exact Or.inl (List.mem_of_getElem? (i := 19) rfl)
+  · exact Or.inl (List.mem_of_getElem? (i := 20) rfl)
+  · exact Or.inl (List.mem_of_getElem? (i := 21) rfl)
+  · exact Or.inl (List.mem_of_getElem? (i := 22) rfl)
+  · exact Or.inl (List.mem_of_getElem? (i := 23) rfl)
+  · exact Or.inl (List.mem_of_getElem? (i := 25) rfl)
+
+/-- C02 for ALL 30 modelled rules (every default rule except OverlappingFieldsCanBeMerged, and the
+    four `…WithoutSuggestions` twins), in any selection and order, on EVERY schema: validation of a
+    document whose operation kinds are ones the parser produces returns an error list — it neither
+    panics nor runs out of fuel.  The only hypothesis is `hd` (operation kinds); it is needed for
+    KnownRootType alone. -/
+theorem C02_validate_no_panic_parsed (rs : List Rule) (s : Schema) (d : QueryDoc)
+    (hd : ∀ op ∈ d.ops, op.op ∈ parserOpKinds)
+    (h : ∀ r ∈ rs, r ∈ modelledRules) : ∃ errs, validate rs s d = .ok errs :=
+  C02_validate_no_panic_parsed_partial rs s d hd fun r hr => C02_modelled_rules_covered r (h r hr)
+
+/-- … in particular the modelled default rule set -/
+theorem C02_validate_default_no_panic_parsed (s : Schema) (d : QueryDoc)
+    (hd : ∀ op ∈ d.ops, op.op ∈ parserOpKinds) : ∃ errs, validate defaultRules s d = .ok errs := by
+  apply C02_validate_no_panic_parsed defaultRules s d hd
+  intro r hr
+  simp only [defaultRules, List.mem_filterMap] at hr
+  obtain ⟨n, _, hn⟩ := hr
+  exact List.mem_of_find?_eq_some hn
+
+/-- the hypothesis on operation kinds cannot be dropped: KnownRootType panics on a hand-built
+    operation of kind `fetch` -/
+theorem C02_validate_needs_parser_op_kinds :
+    validate [knownRootType] Witness.schema
+      { ops := [{ op := str "fetch", name := [], vars := [], dirs := [], sel := .nil, pos := Pos.zero }], frags := [] }
+      = .panic (str "got unknown operation type \"fetch\"") := by
+  decide +kernel
 
 /-- R2a after the repair (fixed: 7f... "no nil dereference for an undefined variable in a oneOf input
     object"), kernel-checked: `{ f(one: {a: $undef}) }` with `input One @oneOf { a: String }` no
@@ -134,6 +205,10 @@ example : validate [valuesOfCorrectType] Witness.schema Witness.docUsed = .ok []
 #print axioms C02_validate_no_panic_partial
 #print axioms C02_panic_free_rule_names
 #print axioms C02_validate_no_panic_parsed_partial
+#print axioms C02_modelled_rules_covered
+#print axioms C02_validate_no_panic_parsed
+#print axioms C02_validate_default_no_panic_parsed
+#print axioms C02_validate_needs_parser_op_kinds
 #print axioms C02_validate_R2a_returns
 #print axioms C02_validate_R2b_returns
 #print axioms C02_validate_default_R2a_returns
